@@ -284,6 +284,46 @@ func c12CloseRun(c *Ctx, cs c12CloseCase) {
 			return
 		}
 		judge(fmt.Sprintf("channel %d", yid), y, ty, 0)
+	case "stray":
+		// packets of every header type, header-only and with a body, for an
+		// id that was never set up and for the id of the closed channel:
+		// each is reported once, and channel Y is not disturbed
+		px, _ := response(xid, 0, 1, true)
+		k.tr.Feed(px...)
+		if _, ok := settle("before-close"); !ok {
+			return
+		}
+		drainChannel(x, k.ctx)
+		if !closeX() {
+			return
+		}
+		sent := 0
+		for _, id := range []uint16{xid, 9, 65535} {
+			var body []byte
+			if cs.Final {
+				body = srv.Done(srv.TokDone, 0, 0, 0)
+			}
+			k.tr.Feed(xport.Packet(byte(cs.Before), byte(cs.After), id, body))
+			sent++
+			if _, ok := settle("after-close"); !ok {
+				return
+			}
+			// one report per packet, taken before the next (the error
+			// queue is bounded)
+			d0 := drainChannel(k.ch, k.ctx)
+			_, inv, other := tagsOf(d0)
+			if len(other) > 0 || inv != 1 {
+				fail("invalid-channel/error-count/stray-packet", fmt.Sprintf("a packet with header type %d, status %#x, %d body bytes for channel %d (closed channel is %d, live channels %v) produced %d 'invalid channel' connection errors (other errors: %v); want exactly 1", cs.Before, cs.After, len(body), id, xid, ids[1:], inv, other))
+				return
+			}
+		}
+		py, ty := response(yid, 0, 2, true)
+		k.tr.Feed(py...)
+		if _, ok := settle("after-close"); !ok {
+			return
+		}
+		judge(fmt.Sprintf("channel %d", yid), y, ty, 0)
+		r.Count("close_stray_packets_reported", int64(sent))
 	case "racing-close":
 		// a sender and a receiver use X while a third goroutine closes it
 		// and the peer keeps sending; the race detector watches, the
@@ -475,6 +515,14 @@ func c12CloseCases(c *Ctx) []c12CloseCase {
 	}
 	for _, n := range []int{2, 4} {
 		out = append(out, c12CloseCase{Family: "close", Kind: "reuse", Channels: n, Queue: 16})
+	}
+	// Before = header type, After = header status, Final = with a body
+	for _, typ := range []int{int(tds.TDS_BUF_NORMAL), int(tds.TDS_BUF_RESPONSE), int(tds.TDS_BUF_PROTACK), int(tds.TDS_BUF_SETUP), int(tds.TDS_BUF_CLOSE), int(tds.TDS_BUF_LOGIN), 0, 1, 6, 7, 8, 13, 16, 19, 255} {
+		for _, st := range []int{0, 1} {
+			for _, withBody := range []bool{false, true} {
+				out = append(out, c12CloseCase{Family: "close", Kind: "stray", Channels: 2, Queue: 16, Before: typ, After: st, Final: withBody})
+			}
+		}
 	}
 	reps := 24
 	if !c.Quick() {
